@@ -73,23 +73,46 @@ def tree_hash(paths, exts):
                         h.update(fh.read())
     return h.hexdigest()[:16]
 
+TIER = {"tier": "quick", "seed": 1}
+
 def harness_dir():
     tag = hashlib.sha256(REPO.encode()).hexdigest()[:8]
-    return os.path.join(BUILD, "harness-" + tag)
+    return os.path.join(BUILD, "harness-" + tag + ("-thorough" if TIER["tier"] == "thorough" else ""))
 
 def build_harness():
-    """(ok, log). Builds the harness against REPO's working tree."""
+    """(ok, log). Builds the harness against REPO's working tree. The thorough tier adds seeded random type definitions
+    (new programs, compiled by the real macro) to the catalog, in a build directory of its own."""
     d = harness_dir()
     os.makedirs(os.path.join(d, ".cargo"), exist_ok=True)
-    # regenerate the catalog glue
-    rc, out = sh([sys.executable, os.path.join(VERIF, "tools", "gen_types.py"), "--out", os.path.join(HARNESS_SRC, "src", "gen_types.rs")])
-    if rc != 0:
-        return False, "gen_types failed:\n" + out
+    thorough = TIER["tier"] == "thorough"
     src_link = os.path.join(d, "src")
-    if not os.path.islink(src_link):
-        if os.path.exists(src_link):
-            shutil.rmtree(src_link)
-        os.symlink(os.path.join(HARNESS_SRC, "src"), src_link)
+    if not thorough:
+        # regenerate the catalog glue (identical to the committed file unless the catalog changed)
+        rc, out = sh([sys.executable, os.path.join(VERIF, "tools", "gen_types.py"), "--out", os.path.join(HARNESS_SRC, "src", "gen_types.rs")])
+        if rc != 0:
+            return False, "gen_types failed:\n" + out
+        if not os.path.islink(src_link):
+            if os.path.exists(src_link):
+                shutil.rmtree(src_link)
+            os.symlink(os.path.join(HARNESS_SRC, "src"), src_link)
+    else:
+        if os.path.islink(src_link):
+            os.unlink(src_link)
+        os.makedirs(os.path.join(src_link, "bin"), exist_ok=True)
+        for root, dirs, files in os.walk(os.path.join(HARNESS_SRC, "src")):
+            for f in files:
+                if f == "gen_types.rs":
+                    continue
+                rel = os.path.relpath(os.path.join(root, f), os.path.join(HARNESS_SRC, "src"))
+                dst = os.path.join(src_link, rel)
+                os.makedirs(os.path.dirname(dst), exist_ok=True)
+                txt = open(os.path.join(root, f)).read()
+                if not os.path.exists(dst) or open(dst).read() != txt:
+                    open(dst, "w").write(txt)
+        rc, out = sh([sys.executable, os.path.join(VERIF, "tools", "gen_types.py"), "--out", os.path.join(src_link, "gen_types.rs"),
+                      "--random-seed", str(TIER["seed"]), "--random-count", "60"])
+        if rc != 0:
+            return False, "gen_types failed:\n" + out
     toml = open(os.path.join(HARNESS_SRC, "Cargo.toml.in")).read().replace("@REPO@", REPO)
     tp = os.path.join(d, "Cargo.toml")
     if not os.path.exists(tp) or open(tp).read() != toml:
@@ -101,7 +124,7 @@ def build_harness():
     lp = os.path.join(d, "Cargo.lock")
     if not os.path.exists(lp):
         shutil.copy(lock_src, lp)
-    rc, out = sh(["cargo", "build", "--offline", "--bin", "fvh"], cwd=d, timeout=1800)
+    rc, out = sh(["cargo", "build", "--offline", "--bin", "fvh"], cwd=d, timeout=3600)
     return rc == 0, out
 
 def harness_bin():
@@ -128,7 +151,7 @@ SUITE_ARGS = {
 
 def run_suite(name, tier, seed, fp):
     """returns dict(trace=path, model=path, crashed=bool, wall=float)"""
-    key = hashlib.sha256(f"{name}|{tier}|{seed}|{fp}|{tree_hash([HARNESS_SRC], ('.rs', '.in'))}|{tree_hash([LEAN], ('.lean', '.toml'))}|{tree_hash([os.path.join(VERIF, 'corpus')], ('.txt',))}".encode()).hexdigest()[:20]
+    key = hashlib.sha256(f"{name}|{tier}|{seed}|{fp}|{harness_dir()}|{tree_hash([HARNESS_SRC], ('.rs', '.in'))}|{tree_hash([LEAN], ('.lean', '.toml'))}|{tree_hash([os.path.join(VERIF, 'corpus')], ('.txt',))}".encode()).hexdigest()[:20]
     cdir = os.path.join(BUILD, "cache", key)
     meta = os.path.join(cdir, "meta.json")
     if os.path.exists(meta):
@@ -970,6 +993,7 @@ def write_replay(f, extra=None):
 
 def check_property(prop, tier, seed):
     t0 = time.time()
+    TIER["tier"], TIER["seed"] = tier, seed
     cfg = PROPS[prop]
     thorough = tier == "thorough"
     violations = []   # (replay path, suffix)
